@@ -96,7 +96,11 @@ def run(ctx, rep):
                 e = flow.expr_of(CP, CP.term(nb[0])["args"][2])
                 ty = e[1][2] if e[0] == "agg" else None
             bl = flow.backward_slice(CP, op_place(t["args"][0]))
-            getter = "get_tree" if any(c.endswith("get_tree") for c in _closure_calls(prog, CP, bl)) else ("get_data" if any(c.endswith("get_data") for c in _closure_calls(prog, CP, bl)) else None)
+            # lookups in the filter_map closure or, for the loop form (`for id in ids { if let Some(e) = index.get_data(&id) { v.push(..) } }`),
+            # in copy itself: the pushes into the vector are part of its slice
+            seen_calls = set(_closure_calls(prog, CP, bl)) | set(bl["calls"])
+            gt_, gd_ = any(c.endswith("get_tree") for c in seen_calls), any(c.endswith("get_data") for c in seen_calls)
+            getter = "get_tree" if gt_ and not gd_ else ("get_data" if gd_ and not gt_ else ("both" if gt_ and gd_ else None))
             want = {"Tree": "get_tree", "Data": "get_data"}.get(ty)
             rep.check("C12.d", f"copier/{ty}", ty in ("Tree", "Data") and getter == want, where=where(CP, bb), what=f"the {ty} copier receives blobs looked up with {getter}")
     # the walk starts from every snapshot tree - not only from those missing in the destination: a root tree that is
@@ -249,10 +253,43 @@ def run(ctx, rep):
             if tb and not other and all(only_via(H, x_, is_matched, IGN) for x_ in tb):
                 ign_helpers.add(callee(t_))
     is_helper = lambda x: x[0] == "call" and x[1] in ign_helpers
-    okg = bool(rem)
-    for bi in rem:
-        # must-pass: every path to the removal has taken the Ignore edge of the matcher's result (directly or through such a helper)
-        okg = okg and (only_via(RW, bi, is_matched, IGN) or (bool(ign_helpers) and only_via(RW, bi, is_helper, True)))
+    # decided path-sensitively (a `let is_excluded = matches!(..)` local is followed): with the matcher answering anything but
+    # Ignore (and Ignore-only helpers answering false) no removal is reachable; with Ignore it is
+    import pathsens
+    mvars = prog_variants_ignore_match()
+
+    def force_match(variant):
+        dv = _discr_of(mvars, variant)
+
+        def fz(body, bb):
+            t = body.term(bb)
+            if t["k"] != "switch":
+                return None
+            x = flow.expr_of(body, t["discr"], bb)
+            if x[0] == "path" and x[1][0] == "local" and not x[2]:
+                for s_ in body.blocks[bb]["s"]:
+                    if s_[0] == "=" and s_[1] == [x[1][1]] and s_[2][0] == "discr":
+                        x = ("discr", flow.place_expr(body, s_[2][1]), s_[2][2])
+            neg = False
+            while x[0] == "un" and x[1] == "Not":
+                x = x[2]
+                neg = not neg
+            if is_matched(x):
+                tg = [y for v, y in t["targets"] if v == dv]
+                return tg[0] if tg else t["otherwise"]
+            if t["discr_ty"] == "bool" and is_helper(x):
+                val = (variant == "Ignore") != neg
+                zero = [y for v, y in t["targets"] if v == "0"]
+                return (t["otherwise"] if val else zero[0]) if zero else None
+            return None
+
+        def ev(body, e):
+            if isinstance(e, tuple) and e and is_helper(e):
+                return variant == "Ignore"
+            return None
+        return set(pathsens.reachable_under(RW, fz, eval_expr=ev))
+    others = [v for v in mvars if v != "Ignore"]
+    okg = bool(rem) and all(not (set(rem) & force_match(v)) for v in others) and bool(set(rem) & force_match("Ignore"))
     rep.check("C12.g", "removed-only-if-ignored", okg, where=RW.loc(), what="a node is dropped from a rewritten tree only if the exclusion matcher returns Match::Ignore")
     memo_rule(prog, rep)
 
